@@ -63,19 +63,19 @@ func (g *gatedBody) Read(p []byte) (int, error) {
 func (g *gatedBody) Close() error { return nil }
 
 type c14bClient struct {
-	ID       int
-	StartAt  time.Duration
-	GateAt   time.Duration // <0: the upload never completes
-	Case     *signCase
-	Key      string
-	Upload   []byte
-	Entered  time.Duration // when the server's handler was entered (-1 never)
-	DoneAt   time.Duration
-	Status   int
-	Body     []byte
-	CType    string
-	Err      error
-	Late     bool
+	ID      int
+	StartAt time.Duration
+	GateAt  time.Duration // <0: the upload never completes
+	Case    *signCase
+	Key     string
+	Upload  []byte
+	Entered time.Duration // when the server's handler was entered (-1 never)
+	DoneAt  time.Duration
+	Status  int
+	Body    []byte
+	CType   string
+	Err     error
+	Late    bool
 }
 
 // c14Shutdown: a real http.Server driven by the real Daemon.Serve/Close over
